@@ -189,7 +189,10 @@ func Generate(r *core.Rng, id int, maxOps int, faulty bool) *History {
 			for i := 0; i < n; i++ {
 				args = append(args, core.Pick(r, m.keys), val(m.vs))
 			}
-			maybeFault()
+			if faulty && r.Chance(1, 3) {
+				// anywhere in the 3 allocations per inserted pair (plus table and rehash)
+				emit("F", strconv.Itoa(r.Range(1, 3*n+4)))
+			}
 			emit("mfrom", args...)
 		} else {
 			maybeFault()
